@@ -83,6 +83,11 @@ CHECKS = {
     category='exploration', design='4/C18',
     text="~420 generated expanded expressions per quick run over every tensor kind the library produces, deltas, spin-labelled and numbered indices, orbital-energy fractions with powers (expanded denominators), rational/sqrt prefactors, operators and NO groups; 7 derivation pipelines (raw and after substitute_contracted).",
     note="Plain sympy Symbols are not in the property's list and are not generated (greek names are LaTeX-translated by sympy's printer). Trusted: TM evaluator."),
+ 'C14': dict(
+    technique="runtime monitor: restoration oracle (weighted re-contraction of the returned block expressions with minimal-name tensor blocks on the F_p tensor model), block-symmetry check on the value array, and finite-difference oracle (E(T + eps dT) at k+1 points, Lagrange interpolation in F_p) for derivative",
+    category='exploration', design='4/C14',
+    text="~250 remove_tensor and ~100 derivative cases per quick run: ranks (1,1),(2,2),(2,1),(3,0),(2,0) (quick) and (3,3) (thorough), bra-ket symmetry 0/+1/-1, ADC amplitude vectors (pp and ip/ea shapes), tensors occurring once, twice or squared, carrying target or repeated indices (remove_tensor), 1-2 term expressions, explicit or Einstein targets.",
+    note="Derivative cases keep all indices of the differentiated tensor contracted (the property defines the derivative through the full contraction with a variation). For multi-occurrence keys every assignment of key blocks to removal order is tried (the sorted key does not record it). Trusted: the reading of the documented normalisation (DESIGN 4/C14)."),
 }
 
 NOT_YET = {}
